@@ -97,6 +97,12 @@ func propEviction(c *Case) {
 		c.Class("items-count-reported-between-cycles")
 	}
 
+	// without Stats (and without a debug logger) backends may take leaner code paths
+	withStats := c.Weighted("stats", 1, 2) == 1
+	if !withStats {
+		c.Class("no-stats")
+	}
+
 	c.Bubble(func() {
 		tr := newCountTracker()
 		interval := time.Hour
@@ -104,11 +110,15 @@ func propEviction(c *Case) {
 		cycle := 0
 
 		cfg := cache.Config{
-			Name: "ev", Stats: tr, ItemsCountReportInterval: reportInterval,
+			Name: "ev", ItemsCountReportInterval: reportInterval,
 			TimeToLive: 1000 * time.Hour, ExpirationJitter: -1,
 			DeleteExpiredJobInterval: interval, DeleteExpiredAfter: farFuture,
 			CountSoftLimit: limit, HeapInUseSoftLimit: heapLimit, SysMemSoftLimit: sysLimit, EvictFraction: frac, EvictionStrategy: strategy,
 		}
+		if withStats {
+			cfg.Stats = tr
+		}
+
 		if useNeeded {
 			cfg.EvictionNeeded = func() bool {
 				neededCalls++
@@ -123,6 +133,7 @@ func propEviction(c *Case) {
 
 		pop := map[string]*evEntry{}
 		nkey := 0
+		lateDeletes := 0
 
 		for cycle = 0; cycle < cycles; cycle++ {
 			// (Re)fill the population.
@@ -214,6 +225,38 @@ func propEviction(c *Case) {
 
 			// Nothing disappears between ticks.
 			tick := t0.Add(time.Duration(cycle+1) * interval)
+
+			// the population may still change shortly before the cycle (after the last items-count report)
+			if c.Weighted("late-change", 2, 1) == 1 {
+				time.Sleep(time.Until(tick) - 5*time.Minute)
+
+				late := c.Int("late-writes", -3, 6)
+				for ; late < 0 && len(keys) > 0; late++ {
+					k := keys[len(keys)-1]
+					keys = keys[:len(keys)-1]
+					_ = be.Delete(bg, []byte(k))
+					delete(pop, k)
+					lateDeletes++
+				}
+
+				for ; late > 0; late-- {
+					nkey++
+					k := fmt.Sprintf("k%03d", nkey)
+					e := &evEntry{key: k, expiry: time.Now().Add(1000 * time.Hour).UnixNano()}
+					ttl := time.Duration(0)
+
+					if strategy == cache.EvictMostExpired {
+						ttl = 50 * time.Minute
+						e.metric = time.Now().Add(ttl).UnixNano()
+					}
+
+					_ = be.Write(ttlCtx(ttl), []byte(k), "v"+k)
+					pop[k] = e
+				}
+
+				c.Class("population-changed-shortly-before-cycle")
+			}
+
 			time.Sleep(time.Until(tick) - 1)
 			synctest.Wait()
 			c.Assert(be.Len() == len(pop), "evicted-between-ticks", "Len()=%d one ns before the tick, population %d", be.Len(), len(pop))
@@ -242,6 +285,9 @@ func propEviction(c *Case) {
 			otherBreach := heapLimit == 1 || (useNeeded && needScript[cycle]) // unreached memory limits never count
 			breach := countBreach || otherBreach
 			evicted := int(tr.get("ev", cache.MetricEvict) - evBefore)
+			if !withStats {
+				evicted = removed // nothing to compare with
+			}
 
 			c.Tracef("cycle %d: n=%d kept=%d removed=%d countBreach=%v otherBreach=%v cache_evict+=%d EvictionNeeded calls+=%d",
 				cycle, nBefore, len(kept), removed, countBreach, otherBreach, evicted, neededCalls-callsBefore)
@@ -273,7 +319,9 @@ func propEviction(c *Case) {
 			}
 
 			c.Assert(evicted == removed, "evict-metric", "cache_evict grew by %d, %d entries were removed", evicted, removed)
-			c.Assert(tr.get("ev", cache.MetricDelete) == 0, "evict-counted-as-delete", "cache_delete = %v although nothing was removed by Delete/DeleteAll (evictions have their own metric)", tr.get("ev", cache.MetricDelete))
+			if withStats {
+				c.Assert(tr.get("ev", cache.MetricDelete) == float64(lateDeletes), "evict-counted-as-delete", "cache_delete = %v although only %d entries were removed by Delete (evictions have their own metric)", tr.get("ev", cache.MetricDelete), lateDeletes)
+			}
 
 			// Rank: every removed entry ranks no higher than every kept entry.
 			maxRemoved, minKept := int64(math.MinInt64), int64(math.MaxInt64)
